@@ -157,6 +157,7 @@ contract(f"{UC}.__eq__",
               "_modifies": ["self._hash", "other._hash"],
               "_add_ensures": {
                   "iff_same_exponents": "result == forall[Str](lambda q: view(self)[q] == view(other)[q])",
+                  "iff_same_items": "result == (view(self) == view(other))",
                   "wf_other": "wf(other)"}},
              {"_name": "dict", "other": "UDict[Str,Num]",
               "_add_ensures": {"iff_same_items": "result == (contents(self._d) == contents(other))"}},
@@ -197,3 +198,70 @@ _C[f"{UC}.__eq__"].cases += [
     {"_name": "num", "other": "Num", "_add_ensures": {"false": "result == False"}},
     {"_name": "object", "other": "Other", "_add_ensures": {"false": "result == False"}},
 ]
+
+# --------------------------------------------------------------------------- group-law lemmas over the contracts
+_UCP = {"a": "Ref[UnitsContainer]", "b": "Ref[UnitsContainer]", "c": "Ref[UnitsContainer]"}
+_same = ["wf(a)", "wf(b)", "wf(c)", "same_class(a, b)", "same_class(b, c)"]
+
+lemma("C04.mul_commutative", _UCP, """
+def lemma(a, b, c):
+    r1 = a * b
+    r2 = b * a
+    check("views_equal", "view(r1) == view(r2)")
+    check("eq_operator", "True")
+    e = (r1 == r2)
+    check("compare_equal", "e")
+    check("hash_equal", "hash_items(view(r1)) == hash_items(view(r2))")
+""", requires=_same)
+
+lemma("C04.mul_associative", _UCP, """
+def lemma(a, b, c):
+    r1 = (a * b) * c
+    r2 = a * (b * c)
+    check("views_equal", "view(r1) == view(r2)")
+""", requires=_same)
+
+lemma("C04.div_self_is_dimensionless", _UCP, """
+def lemma(a, b, c):
+    r = a / a
+    check("empty", "forall[Str](lambda q: not (q in r._d)) and len(r._d) == 0")
+""", requires=_same)
+
+lemma("C04.div_is_mul_inverse", _UCP, """
+def lemma(a, b, c):
+    r = (a * b) / b
+    check("views_equal", "view(r) == view(a)")
+    s = a / b
+    t = a * (b ** -1)
+    check("div_is_mul_pow_minus_one", "view(s) == view(t)")
+""", requires=_same)
+
+lemma("C04.pow_laws", dict(_UCP, x="Num", y="Num"), """
+def lemma(a, b, c, x, y):
+    z = a ** 0
+    check("pow_zero_empty", "forall[Str](lambda q: not (q in z._d))")
+    o = a ** 1
+    check("pow_one", "view(o) == view(a)")
+    p = (a ** x) ** y
+    q2 = a ** (x * y)
+    check("pow_pow", "forall[Str](lambda k: view(p)[k] == view(q2)[k])")
+    d = (a * b) ** x
+    e = (a ** x) * (b ** x)
+    check("pow_distributes", "forall[Str](lambda k: view(d)[k] == view(e)[k])")
+""", requires=_same)
+
+lemma("C04.eq_hash_agree", _UCP, """
+def lemma(a, b, c):
+    ha = hash(a)
+    hb = hash(b)
+    e = (a == b)
+    check("eq_iff_same_exponents", "e == forall[Str](lambda q: view(a)[q] == view(b)[q])")
+    check("eq_implies_hash", "implies(e, ha == hb)")
+    e2 = (b == a)
+    check("eq_symmetric", "e == e2")
+    f = (b == c)
+    g = (a == c)
+    check("eq_transitive", "implies(e and f, g)")
+    r = (a == a)
+    check("eq_reflexive", "r")
+""", requires=_same)
